@@ -203,6 +203,12 @@ def prior_activity():
         uuid.uuid4()
 
 
+# state of the global random / numpy generators that "earlier activity" leaves behind, per
+# prior-activity answer (and per back-to-back run): owned by the harness so that the verdict is
+# reproducible; only models whose components are all explicitly seeded are exposed to it
+AMBIENT = {"fresh": 1, "exec-fresh": 2, "none": 3, "busy": 4}
+
+
 def run_pass(names, seeds, reps, dump, prior_label):
     """Run every (seed, model) ``reps`` times back to back in THIS process."""
     out = sys.stdout
@@ -213,7 +219,8 @@ def run_pass(names, seeds, reps, dump, prior_label):
                     COUPLING[k] = 0
                 _COUNT_ON[0] = True
                 try:
-                    res = cat.run_model(name, seed, full=bool(dump and dump[:3] == [name, seed, prior_label]))
+                    res = cat.run_model(name, seed, full=bool(dump and dump[:3] == [name, seed, prior_label]),
+                                        ambient=AMBIENT.get(prior_label, 7) * 10 + rep)
                 finally:
                     _COUNT_ON[0] = False
                 res.update({"model": name, "seed": seed, "rep": rep, "prior": prior_label,
